@@ -353,8 +353,8 @@ func Fault(r *rand.Rand, toks []GTok) (text string, off int, class string, ok bo
 }
 
 // LongLines is the "long line" family: texts whose first line is longer than 2^16 characters (a comment, a
-// run of blanks and tabs, a single-quoted string of multi-byte characters, an unquoted token — and, in the
-// thorough tier, a double-quoted string, which costs the list-based model half a minute) followed on the
+// run of blanks and tabs, a single-quoted string of multi-byte characters, a concatenation — and, in the
+// thorough tier, a double-quoted string and an unquoted token, which cost the list-based model 10-30 s) followed on the
 // same line by more statements, a stray `}`, an undefined escape, an unterminated quote, a quoted keyword,
 // a missing `;`; and texts with more than 2^16 lines.  Columns and lines beyond 65535 must come out whole.
 // The faults carry the offset of the offending token / backslash / opener for the C16 oracle.
@@ -364,13 +364,13 @@ func LongLines(r *rand.Rand, thorough bool) []Case {
 		"/*" + strings.Repeat("c", n()) + "*/ ",
 		strings.Repeat(" ", n()/2) + strings.Repeat("\t", n()/2),
 		"a '" + strings.Repeat("é", n()) + "'; ",
-		"a " + strings.Repeat("x", n()) + "; ",
 		"a 'p' + '" + strings.Repeat("q", n()) + "' { } /* é */\t",
 		strings.Repeat("\n", n()) + "\t/* c */ ",
-		strings.Repeat("x;\r\n", n()) + " é ",
+		strings.Repeat("\r\n", n()) + " é; ",
 	}
 	if thorough {
-		pads = append(pads, "a \""+strings.Repeat("s", n())+"\"; ")
+		// the list-based model is quadratic in the position for tokens read rune by rune: 10-30 s each
+		pads = append(pads, "a \""+strings.Repeat("s", n())+"\"; ", "a "+strings.Repeat("x", n())+"; ")
 	}
 	type tail struct {
 		text  string
@@ -384,12 +384,15 @@ func LongLines(r *rand.Rand, thorough bool) []Case {
 		{"leaf x { b 'c'; } leaf 'unterminated", 23, "sq"},
 		{"leaf x; \"leaf\" y;", 8, "kw"},
 		{"leaf x; 'le' + 'af' y;", 8, "kw"},
-		{"leaf x y z;", 9, "semi"},
+		{"leaf x y z;", 7, "semi"},
 		{"leaf x { type string; } /* open", 24, "cmt"},
 	}
 	var out []Case
-	for _, p := range pads {
-		for _, t := range tails {
+	for pi, p := range pads {
+		for ti, t := range tails {
+			if pi >= 6 && ti >= 3 {
+				break // the two slow paddings: three tails only
+			}
 			c := Case{Text: p + t.text, Stream: "long_line"}
 			if t.class != "" {
 				c.FaultOff, c.FaultClass = len(p)+t.off, t.class
